@@ -9,6 +9,8 @@ pub enum World {
     Builder(Script),
     Bytes(Vec<u8>),
     Sub(Box<World>, u32, Vec<u32>),
+    /// from_standard (false) / from_standard_transitive (true) on a directory with the three files
+    Jax { transitive: bool, obo: Vec<u8>, genes: Vec<u8>, hpoa: Vec<u8> },
 }
 
 pub struct Built {
@@ -22,6 +24,10 @@ impl World {
             World::Builder(s) => V::C("WBuilder", vec![s.to_v()]),
             World::Bytes(b) => V::C("WBytes", vec![crate::v::bytes(b)]),
             World::Sub(w, root, leaves) => V::C("WSub", vec![w.to_v(), crate::v::n(*root), crate::v::ln(leaves)]),
+            World::Jax { transitive, obo, genes, hpoa } => V::C(
+                "WJax",
+                vec![V::C(if *transitive { "true" } else { "false" }, vec![]), crate::v::bytes(obo), crate::v::bytes(genes), crate::v::bytes(hpoa)],
+            ),
         }
     }
     /// None = a call panicked
@@ -29,6 +35,20 @@ impl World {
         match self {
             World::Builder(s) => build::run(s).map(|(codes, result)| Built { codes, result }),
             World::Bytes(b) => crate::catch(std::panic::AssertUnwindSafe(|| Ontology::from_bytes(b))).map(|result| Built { codes: vec![], result }),
+            World::Jax { transitive, obo, genes, hpoa } => {
+                static COUNTER: std::sync::atomic::AtomicU64 = std::sync::atomic::AtomicU64::new(0);
+                let k = COUNTER.fetch_add(1, std::sync::atomic::Ordering::SeqCst);
+                let dir = std::env::temp_dir().join(format!("hpo-verif-jax-{}-{}", std::process::id(), k));
+                std::fs::create_dir_all(&dir).expect("scratch directory");
+                std::fs::write(dir.join("hp.obo"), obo).expect("write hp.obo");
+                std::fs::write(dir.join(if *transitive { "phenotype_to_genes.txt" } else { "genes_to_phenotype.txt" }), genes).expect("write gene file");
+                std::fs::write(dir.join("phenotype.hpoa"), hpoa).expect("write phenotype.hpoa");
+                let d = dir.to_str().expect("utf-8 path").to_string();
+                let tr = *transitive;
+                let r = crate::catch(std::panic::AssertUnwindSafe(|| if tr { Ontology::from_standard_transitive(&d) } else { Ontology::from_standard(&d) }));
+                let _ = std::fs::remove_dir_all(&dir);
+                r.map(|result| Built { codes: vec![], result })
+            }
             World::Sub(w, root, leaves) => {
                 let src = w.build()?;
                 match src.result {
